@@ -18,9 +18,7 @@ from .common import (callee, callee_name, calls, ev, fact_eq_const, facts, for_l
 DETECT = "simfile:_detect_ssc"
 LOAD = "simfile:load"
 ENTRY_POINTS = [
-    "simfile:loads", "simfile:load", "simfile:open", "simfile:open_with_detected_encoding", "simfile:mutate",
-    "simfile:opendir", "simfile:openpack", "simfile.dir:SimfileDirectory.open", "simfile.dir:SimfilePack.simfiles",
-    "simfile.assets:Assets.__init__", "simfile.ssc:SSCChart.from_str",
+    "simfile:loads", "simfile:load", "simfile:open", "simfile:open_with_detected_encoding", "simfile:mutate", "simfile.ssc:SSCChart.from_str",
 ]
 TOKENIZER_CALLERS = {"simfile.base:BaseSimfile.__init__", "simfile.ssc:SSCChart.from_str", DETECT}
 
